@@ -180,3 +180,81 @@ def image_iterator_ops(m, meta):
         except OSError:
             pass
     return {"reproduced": bool(problems), "input": "scripted endings of an ImageIterator on a GIF file", "observed": [repr(p) for p in problems[:4]]}
+
+
+def url_source(m, meta):
+    """URL-sourced images against a local HTTP server: the temporary copy exists exactly while the image is open; none is left when
+    construction fails (404, not an image, arguments rejected by the constructor); close() / garbage collection remove it; open-file
+    count back at its baseline"""
+    import http.server, io, threading
+    import tests  # noqa: F401
+    from PIL import Image
+    import term_image.image.common as common
+    from term_image.image import BlockImage
+    buf = io.BytesIO()
+    Image.new("RGB", (8, 8), (1, 2, 3)).save(buf, "PNG")
+    png = buf.getvalue()
+
+    class H(http.server.BaseHTTPRequestHandler):
+        def do_GET(self):
+            if self.path.endswith(".png"):
+                body, code, ctype = png, 200, "image/png"
+            elif self.path.endswith(".html"):
+                body, code, ctype = b"<html>no image</html>", 200, "text/html"
+            else:
+                body, code, ctype = b"", 404, "text/plain"
+            self.send_response(code)
+            self.send_header("Content-Type", ctype)
+            self.send_header("Content-Length", str(len(body)))
+            self.end_headers()
+            self.wfile.write(body)
+
+        def log_message(self, *a):
+            pass
+    srv = http.server.HTTPServer(("127.0.0.1", 0), H)
+    threading.Thread(target=srv.serve_forever, daemon=True).start()
+    base_url = f"http://127.0.0.1:{srv.server_port}"
+    tmp = lambda: sorted(os.listdir(common._TEMP_DIR))
+    nfd = lambda: len(os.listdir("/proc/self/fd"))
+    problems = []
+    try:
+        files0 = tmp()
+        try:
+            BlockImage.from_url(base_url + "/warm.png").close()      # connection pools etc. settle before the baseline is taken
+        except Exception:
+            pass
+        gc.collect()
+        fd0 = nfd()
+        for label, path, kwargs in (("404", "/missing", {}), ("not an image", "/page.html", {}), ("constructor rejects width=0", "/a.png", {"width": 0}),
+                                    ("constructor rejects a str height", "/a.png", {"height": "3"}), ("constructor rejects a negative height", "/a.png", {"height": -2})):
+            try:
+                BlockImage.from_url(base_url + path, **kwargs)
+                problems.append((label, "accepted"))
+            except Exception:
+                pass
+            gc.collect()
+            if tmp() != files0:
+                problems.append((label, "temporary file left behind", [f for f in tmp() if f not in files0]))
+                break
+        if not problems:
+            image = BlockImage.from_url(base_url + "/a.png")
+            new = [f for f in tmp() if f not in files0]
+            if len(new) != 1 or os.path.join(common._TEMP_DIR, new[0]) != image._source:
+                problems.append(("open", "temporary copies", new, "source", image._source))
+            str(image)
+            image.close()
+            image.close()
+            if tmp() != files0:
+                problems.append(("close", "temporary file still there", tmp()))
+            image = BlockImage.from_url(base_url + "/a.png")
+            del image
+            gc.collect()
+            if tmp() != files0:
+                problems.append(("garbage collection", "temporary file still there", tmp()))
+            gc.collect()
+            if nfd() != fd0:
+                problems.append(("open files", nfd() - fd0))
+    finally:
+        srv.shutdown()
+        srv.server_close()
+    return {"reproduced": bool(problems), "input": "URL-sourced images against a local HTTP server", "observed": [repr(p)[:300] for p in problems[:3]]}
